@@ -380,12 +380,15 @@ fn kb_prepare(mem: &mut MemoryImage) -> KeyboardMatrix {
         release_threshold: vin(424) as u8,
         repeat_delay: vin(425) as u8,
         repeat_interval: vin(426) as u8,
-        columns_active_high: vin(422) & 1 != 0,
+        // the state is loaded under the *earlier* polarity (input 428); the polarity under test is then set through the
+        // public setter, as a host that flips the strobe polarity at run time does
+        columns_active_high: vin(428) & 1 != 0,
         scan_enabled: true,
         kil_read_count: 0,
     };
     let mut kb = KeyboardMatrix::new();
     kb.load_snapshot_state(&snap);
+    kb.set_columns_active_high(vin(422) & 1 != 0);
     kb.set_repeat_enabled(vin(427) & 1 != 0);
     mem.write_internal_byte(0xFC, vin(434) as u8);
     kb
